@@ -114,7 +114,143 @@ func c07Check(st internal.VerifTlfuState[int, int], live map[uintptr]*c07Ent, ca
 	return "", ""
 }
 
+
+// c07Reorder: the store applies cost changes as deltas computed under the shard
+// lock but sent afterwards, so two Sets of one key can reach the policy in the
+// reverse order (the code says "different order still works"). Between the
+// negative delta and the positive one that justifies it the entry's policy
+// weight is negative. This scenario reproduces that transient on the real
+// policy - negative delta, a climb that grows the window while the weight is
+// negative, the compensating delta, one more insert - and judges what must
+// survive it: every step terminates, window capacity stays in [1, capacity],
+// window + protected capacity is conserved, and once both deltas are applied the
+// full walker holds again.
+func c07Reorder(r *Run, variant int) {
+	rng := r.Rng(int64(7700 + variant))
+	capacity := []uint{20, 100, 100, 1000}[variant%4]
+	w := int64(2 + rng.Intn(int(capacity)/5+1)) // weight of the ordinary entries
+	v := internal.VerifNewTlfu[int, int](capacity, nil)
+	live := map[uintptr]*c07Ent{}
+	var ents []*c07Ent
+	key := 0
+	for used := int64(0); used+w <= int64(capacity); used += w {
+		e := internal.NewEntry[int, int](key, key, w, 0)
+		key++
+		v.Insert(e)
+		live[internal.VerifEntryPtr(e)] = e
+		ents = append(ents, e)
+	}
+	st0 := v.State(len(ents) + 10)
+	capSum := st0.Window.Capacity + st0.Protected.Capacity
+	drop := func() {
+		for _, e := range v.Evicted {
+			delete(live, internal.VerifEntryPtr(e))
+		}
+		v.Evicted = v.Evicted[:0]
+	}
+	drop()
+	if len(st0.Probation.Entries) == 0 {
+		r.Inconclusive(1)
+		return
+	}
+	// the probation tail is what the climber looks at first when it grows the window
+	tail := st0.Probation.Entries[len(st0.Probation.Entries)-1]
+	var target *c07Ent
+	for _, e := range ents {
+		if internal.VerifEntryPtr(e) == tail.Ptr {
+			target = e
+		}
+	}
+	under := int64(1 + rng.Intn(6)) // how far below zero the weight goes
+	step := float32(2 + rng.Intn(6))
+	script := []string{fmt.Sprintf("capacity %d filled with entries of weight %d", capacity, w)}
+	wit := func() map[string]any { return map[string]any{"variant": variant, "capacity": capacity, "script": script} }
+	// every step runs under a termination watchdog (two dumps apart, still inside the policy)
+	run := func(desc string, f func()) bool {
+		script = append(script, desc)
+		done := make(chan struct{})
+		go func() {
+			defer func() {
+				if p := recover(); p != nil {
+					r.Violate("panic-in-policy/after-reordered-cost-deltas", fmt.Sprintf("step %q panicked: %v; script: %v", desc, p, script), wit())
+				}
+				close(done)
+			}()
+			f()
+		}()
+		select {
+		case <-done:
+			return true
+		case <-time.After(3 * time.Second):
+		}
+		gs := stableDump(300 * time.Millisecond)
+		for _, g := range gs {
+			if g.State == "runnable" || g.State == "running" {
+				if top := g.topTheineFrame(); strings.Contains(g.Text, "c07Reorder") && top != "" {
+					select {
+					case <-done:
+						return true
+					default:
+					}
+					r.Violate("policy-step-does-not-terminate/after-reordered-cost-deltas",
+						fmt.Sprintf("step %q has been running inside the policy (%s) for 3 s and in two dumps 300 ms apart (normal duration: microseconds); script: %v; state read while it spins: window capacity %d", desc, top, script, int64(v.T_WindowCapacity())), wit())
+					return false
+				}
+			}
+		}
+		<-done
+		return true
+	}
+	ok := run(fmt.Sprintf("late Set's delta first: cost of key %d changes by %d (weight %d -> %d)", tail.Key, -(w + under), w, -under), func() { v.UpdateCost(target, -(w + under)) })
+	drop()
+	ok = ok && run(fmt.Sprintf("climb that grows the window by %v while that weight is negative", step), func() {
+		v.SetHr(0)
+		v.SetStep(step)
+		v.SetSample(10, 10)
+		v.ForceClimb()
+	})
+	drop()
+	if ok {
+		st := v.State(len(ents) + 10)
+		script = append(script, fmt.Sprintf("-> window capacity %d, protected capacity %d (sum was %d)", int64(st.Window.Capacity), int64(st.Protected.Capacity), capSum))
+		switch {
+		case st.Window.Capacity < 1 || st.Window.Capacity > st.Capacity || st.Protected.Capacity > st.Capacity:
+			r.Violate("region-capacity-wrapped/after-reordered-cost-deltas", fmt.Sprintf("after the climb window capacity is %d and protected capacity %d of total %d (unsigned wrap-around); script: %v", int64(st.Window.Capacity), int64(st.Protected.Capacity), st.Capacity, script), wit())
+		case st.Window.Capacity+st.Protected.Capacity != capSum:
+			r.Violate("capacity-not-conserved/after-reordered-cost-deltas", fmt.Sprintf("window %d + protected %d != %d; script: %v", st.Window.Capacity, st.Protected.Capacity, capSum, script), wit())
+		}
+	}
+	if _, still := live[internal.VerifEntryPtr(target)]; still && ok {
+		ok = run(fmt.Sprintf("the earlier Set's delta arrives: cost of key %d changes by +%d", tail.Key, w+under), func() { v.UpdateCost(target, w+under) })
+		drop()
+	}
+	if ok {
+		e := internal.NewEntry[int, int](key, key, 1, 0)
+		ok = run("one more insert", func() { v.Insert(e) })
+		live[internal.VerifEntryPtr(e)] = e
+		drop()
+	}
+	if ok {
+		st := v.State(len(live) + 10)
+		if k, what := c07Check(st, live, capSum, true); k != "" {
+			r.Violate(k+"/after-reordered-cost-deltas", fmt.Sprintf("after both deltas were applied: %s; script: %v", what, script), wit())
+		}
+	}
+	r.Eval(1)
+	r.Count("reordered_delta_scenarios", 1)
+	r.Distinct(fmt.Sprintf("reorder/cap%d/w%d/under%d/step%d", capacity, w, under, int(step)))
+	if variant < 2 {
+		r.Sample(8, map[string]any{"reordered_cost_deltas": script})
+	}
+}
+
 func runC07(r *Run) {
+	defer func() {
+		nre := r.Pick(6, 200)
+		for i := 0; i < nre; i++ {
+			c07Reorder(r, r.Shard*nre+i)
+		}
+	}()
 	r.Rule("case = one generated sequence of policy steps (insert/access/cost-update/remove/forced climb/sketch fill) on a real TinyLfu with the invariant walker after every step; " +
 		"non-trivial = the sequence saw at least one eviction and at least one change of the window capacity; distinct by (capacity, hash of the op-kind sequence)")
 	r.Assume("policy driven directly (single goroutine) the way sinkWrite drives it: NEW = sketch.Add + Set, UPDATE = policyWeight += delta + UpdateCost, removal of evicted entries via the remove callback")
